@@ -289,6 +289,10 @@ int file_read(
   if (ret >= 0) { ret = 0; }
   if (ret != 0) { return ret; }
 
+  // An ELF file says which byte order its words have; selecting the CPU
+  // below sets the CPU's default.
+  const int file_endian = memory->endian;
+
   if (cpu_name != NULL)
   {
     util_context->set_cpu_by_name(cpu_name);
@@ -297,6 +301,8 @@ int file_read(
   {
     util_context->set_cpu_by_type(cpu_type);
   }
+
+  if (*file_type == FILE_TYPE_ELF) { memory->endian = file_endian; }
 
   return 0;
 }
